@@ -222,6 +222,23 @@ Theorem field_gated : forall cls t v0 v, In (cls, t, v0) SpecFieldVersions -> In
 Proof. exact field_gated_lemma. Qed.
 Print Assumptions field_gated.
 
+(* a later field inside a request on the wire (full statement; refuted before fix 0c33f6b, finding
+   C16-locate-unread-items): a request of version v carrying an item the specification introduces after v is not
+   processed.  It rests on `tolerant_readers = []`, computed on the regenerated table: if a reader stops checking for
+   unread items again, this obligation breaks and the wire family of the harness gives the request. *)
+Theorem field_gated_wire : forall cls t v0 v, In (cls, t, v0) SpecFieldVersions -> In v kmip_versions -> ver_ltb v v0 = true ->
+  wire_processed cls v t = false.
+Proof. exact wire_field_gated. Qed.
+Print Assumptions field_gated_wire.
+Theorem field_gated_wire_if_none_tolerant : tolerant_readers = [] ->
+  forall cls t v0 v, In (cls, t, v0) SpecFieldVersions -> In v kmip_versions -> ver_ltb v v0 = true ->
+    wire_processed cls v t = false.
+Proof. exact wire_field_refused_if_none_tolerant. Qed.
+Example field_gated_wire_hyp : In ("RequestBatchItem", "EPHEMERAL", (2, 0)) SpecFieldVersions
+  /\ In ("LocateRequestPayload", "ATTRIBUTES", (2, 0)) SpecFieldVersions /\ ver_ltb (1, 4) (2, 0) = true
+  /\ wire_processed "LocateRequestPayload" (2, 0) "ATTRIBUTES" = true.
+Proof. repeat split; vm_compute; tauto. Qed.
+
 (* structures that only exist from v0 on are refused by read and by write exactly below v0 *)
 Theorem structure_gated : forall cls v0 v, In (cls, v0) SpecClassVersions -> In v kmip_versions ->
   class_refused_in "read" cls v = ver_ltb v v0 /\ class_refused_in "write" cls v = ver_ltb v v0.
